@@ -518,10 +518,139 @@ def gen_m2(rnd, tier):
                 lines.append('tp_upd name=%s b=%d e=%d clear=0' % (nm, we, we2))
         cases.append({'lines': lines, 'tags': {'family': fam, 'zone': zn, 'transition_window': bool(want_tr)}})
     cases += gen_month_family(random.Random(rnd.random()), tier)
+    cases += gen_range_lists(random.Random(rnd.random()), tier)
     cases += gen_transition_families(random.Random(rnd.random()), tier)
     cases += gen_parse_families(random.Random(rnd.random()), tier)
     cases += directed_m2()
     return cases
+
+
+# ----------------------------------------------------------------------------- M2: range LISTS of one day
+# relative positions of the ranges of one comma-separated list, as (begin, end) indices into six ascending instants
+LIST_CONFIGS = [
+    ('disjoint', [(0, 1), (2, 3)]), ('adjacent', [(0, 1), (1, 2)]), ('overlapping', [(0, 2), (1, 3)]),
+    ('nested', [(0, 3), (1, 2)]), ('identical', [(0, 1), (0, 1)]), ('nested-end-together', [(0, 2), (1, 2)]),
+    ('nested-begin-together', [(0, 2), (0, 1)]),
+    ('three-level', [(0, 5), (1, 4), (2, 3)]), ('three-level-end-together', [(0, 3), (1, 3), (2, 3)]),
+    ('three-level-begin-together', [(0, 3), (0, 2), (0, 1)]),
+    ('outer-two-inner', [(0, 5), (1, 2), (3, 4)]), ('nested-then-disjoint', [(0, 3), (1, 2), (4, 5)]),
+    ('nested-then-adjacent', [(0, 3), (1, 2), (3, 4)]), ('nested-then-overlapping', [(0, 3), (1, 2), (2, 5)]),
+    ('chain', [(0, 2), (1, 4), (3, 5)]), ('identical-plus-nested', [(0, 3), (0, 3), (1, 2)]),
+    ('overlapping-plus-nested-in-both', [(0, 3), (1, 4), (2, 3)]),
+    ('outer-with-adjacent-chain', [(0, 5), (1, 2), (2, 3), (3, 4)]), ('two-nested-pairs', [(0, 3), (1, 2), (3, 5), (4, 5)]),
+    ('four-level', [(0, 5), (0, 4), (1, 4), (2, 3)]), ('disjoint-and-nested-and-identical', [(0, 1), (2, 5), (3, 4), (0, 1)]),
+]
+
+
+def list_points(rnd, zn, mode):
+    """six ascending seconds-of-day (possibly beyond 24:00), every one a local time that exists once on every day"""
+    lo, hi = {'day': (0, 86400), 'late': (43200, 86400), 'wrap': (64800, 108000)}[mode]
+    while True:
+        step = rnd.choice((900, 900, 1800, 60, 1))
+        pts = sorted(set(rnd.randrange(lo // step, hi // step + 1) * step for _ in range(6)))
+        if len(pts) < 6:
+            continue
+        if zn != 'UTC' and any(3600 <= q % 86400 < 10800 for q in pts):
+            continue
+        if mode == 'late':
+            pts[5] = 86400
+            if pts[4] >= 86400:
+                continue
+        if mode == 'wrap' and not (pts[2] < 86400 < pts[3]):
+            continue
+        return pts
+
+
+def written_range(rnd, pb, pe):
+    """a range [pb, pe) counted from 00:00 of its day -> (tb, te) as written: an end beyond 24:00 is written as a wrap
+    (end <= begin means next day) where that says the same, or with an hour >= 24"""
+    if pe > 86400 and pb < 86400 and pe - 86400 <= pb and rnd.random() < 0.6:
+        return (pb, pe - 86400)
+    return (pb, pe)
+
+
+def gen_range_lists(rnd, tier):
+    """one day, 2-4 ranges in every relative position and every written order; under one key, split over two keys
+    that both match the day (weekday + date), and with included / excluded periods whose lists nest likewise"""
+    out = []
+    reps = {'quick': 1, 'thorough': 5, 'search': 2}.get(tier, 1)
+    nperm4 = {'quick': 6, 'thorough': 24, 'search': 12}.get(tier, 6)
+    i = 0
+    for _ in range(reps):
+        for cname, cfg in LIST_CONFIGS:
+            perms = list(itertools.permutations(range(len(cfg))))
+            if len(cfg) > 3:
+                perms = rnd.sample(perms, nperm4)
+            for perm in perms:
+                for mode in ('day', 'wrap', 'late'):
+                    if mode == 'late' and rnd.random() < 0.6:
+                        continue
+                    for variant in ('one-key', 'two-keys', 'referenced'):
+                        i += 1
+                        zn = ZONES[i % 4]
+                        want_tr = zn != 'UTC' and rnd.random() < 0.3
+                        if want_tr:
+                            at = rnd.choice(anchors(zn))
+                            day = (at + off_at(zn, at - 1)) // 86400 + rnd.choice((-1, 0, 0, 1))
+                        else:
+                            day = T0 // 86400 + rnd.randint(3, 700)
+                        D = datetime.date(1970, 1, 1) + datetime.timedelta(days=day)
+                        wd = (D.weekday() + 1) % 7
+                        kw = daydef(('w', wd, 0, -1))
+                        kd = daydef(('d', D.year, D.month, D.day))
+                        pts = list_points(rnd, zn, mode)
+                        trs = [written_range(rnd, pts[cfg[k][0]], pts[cfg[k][1]]) for k in perm]
+                        wb = mk_local(zn, day * 86400) + rnd.choice((0, 0, -7200, 43200 + 1800))
+                        we = wb + rnd.choice((86400, 86400 + 7200, 2 * 86400))
+                        all_trs = list(trs)
+                        body = []
+                        names = ['a']
+                        if variant == 'one-key':
+                            body.append('tp_new name=a')
+                            body.append(range_line('a', kw[0], kw[1], trs, rnd))
+                        elif variant == 'two-keys':
+                            body.append('tp_new name=a')
+                            if rnd.random() < 0.5:
+                                k = rnd.randint(1, len(trs) - 1)
+                                l1, l2 = trs[:k], trs[k:]
+                            else:                                # both keys carry the whole list, in different orders
+                                l1, l2 = trs, list(trs)
+                                rnd.shuffle(l2)
+                            body.append(range_line('a', kw[0], kw[1], l1, rnd))
+                            body.append(range_line('a', kd[0], kd[1], l2, rnd))
+                        else:
+                            # the referencing period has a list of its own (another configuration over the same six
+                            # instants); the referenced ones carry the list of this case
+                            names = ['a', 'b', 'c'][:rnd.choice((2, 2, 3))]
+                            _, cfg2 = rnd.choice(LIST_CONFIGS)
+                            own = [written_range(rnd, pts[x], pts[y]) for x, y in cfg2]
+                            rnd.shuffle(own)
+                            all_trs += own
+                            role = rnd.choice(('inc', 'exc'))
+                            other = {'inc': 'exc', 'exc': 'inc'}[role]
+                            refs = {role: ['b'], other: ['c'] if len(names) == 3 else []}
+                            body.append('tp_new name=a prefer=%d inc=%s exc=%s' % (rnd.randint(0, 1), ','.join(refs['inc']) or '-', ','.join(refs['exc']) or '-'))
+                            body.append('tp_new name=b')
+                            body.append(range_line('a', kw[0], kw[1], own, rnd))
+                            kb = rnd.choice((kw, kd))
+                            body.append(range_line('b', kb[0], kb[1], trs, rnd))
+                            if len(names) == 3:
+                                _, cfg3 = rnd.choice(LIST_CONFIGS)
+                                l3 = [written_range(rnd, pts[x], pts[y]) for x, y in cfg3]
+                                rnd.shuffle(l3)
+                                all_trs += l3
+                                body.append('tp_new name=c')
+                                body.append(range_line('c', kw[0], kw[1], l3, rnd))
+                        lines = ['now %d' % T0, tz_line(zn, wb - 5 * 86400, we + 5 * 86400),
+                                 'tp_pts ' + ','.join(str(p) for p in cal_probes(zn, wb, we, all_trs))] + body
+                        for nm in reversed(names):
+                            lines.append('tp_upd name=%s b=%d e=%d clear=1' % (nm, wb, we))
+                        nested = any(a != b and cfg[a][0] <= cfg[b][0] and cfg[b][1] < cfg[a][1]
+                                     for a in range(len(cfg)) for b in range(len(cfg)))
+                        out.append({'lines': lines, 'tags': {'family': 'm2-range-list', 'zone': zn, 'transition_window': bool(want_tr),
+                                                            'list_config': cname, 'list_mode': mode, 'list_variant': variant,
+                                                            'list_len': len(cfg), 'list_nested_ending_earlier': nested}})
+    return out
 
 
 # strings for the parser: hand-made corner cases of ParseTimeRange / ParseTimeSpec / ProcessTimeRanges ...
